@@ -34,7 +34,7 @@ TX == INSTANCE Text          \* shared string helpers, namespaced (TraceBase's S
 ASSUME TX!Split("a\tb", "\t") = <<"a", "b">>      \* (kept bound to Text: the helpers below are single-pass re-statements)
 
 CONSTANTS WapTop,                 \* [protocols.wap.WAPProtocol] waptop, read from conf/pygopherd.conf (binding B1)
-          EmptyPlusFieldRaises    \* TRUE = the pinned defect is modelled (recorded finding); FALSE = repaired code
+          EmptyPlusFieldRaises    \* FALSE = repaired code (current /repo); TRUE = the snapshot's IndexError is modelled
 
 HI == "#"
 NB == "_"
@@ -209,8 +209,10 @@ ClaimsSpartan(px) ==
     IF px.tls THEN "no"
     ELSE IF ~px.ascii THEN "no"                                     \* request.encode("ascii") raises
     ELSE YesNo(Len(px.parts) = 3 /\ (\A i \in 1..3 : px.parts[i] # "") /\ IsDigitString(px.parts[3]))
-\* gopherp.py:15-36.  NAMED DEVIATION EmptyPlusFieldRaises: the pinned code evaluates gopherpstring[0] on an
-\* empty string (request "sel<TAB><CR><LF>") and raises IndexError; the repaired code answers "no".
+\* gopherp.py:15-36.  NAMED DEVIATION EmptyPlusFieldRaises (switched OFF since /repo commit 6a019e8): the pinned
+\* snapshot evaluated gopherpstring[0] on an empty string (request "sel<TAB><CR><LF>") and raised IndexError; the
+\* repaired code (startswith) answers "no".  The switch is kept so that the defect can be modelled again if it is
+\* ever recorded as a known finding instead (harness/c02.py sets it from the findings list; default FALSE).
 ClaimsGopherPlus(secure, px) ==
     IF secure # px.tls THEN "no"
     ELSE IF Len(px.f) < 2 THEN "no"
